@@ -17,6 +17,11 @@ func fixed(c *hlib.Ctx) {
 	emitDiag(&soup3{})
 	one := &soup3{coords: []model3d.Coord3D{model3d.XYZ(0, 0, 0), model3d.XYZ(1, 0, 0), model3d.XYZ(0, 1, 0)}, faces: [][3]int{{0, 1, 2}}}
 	emitDiag(one)
+	// a lone triangle twice (duplicates do not "share an edge": three vertices in common),
+	// and a triangle with its own reversal
+	emitDiag(&soup3{coords: one.coords, faces: [][3]int{{0, 1, 2}, {0, 1, 2}}})
+	emitDiag(&soup3{coords: one.coords, faces: [][3]int{{0, 1, 2}, {1, 0, 2}}})
+	emitDiag(&soup3{coords: one.coords, faces: [][3]int{{0, 1, 2}, {1, 2, 0}, {2, 0, 1}}})
 	// an edge used three times whose third use comes last / first in the list
 	tet := soupOfMesh(c, tetrahedron(model3d.XYZ(0, 0, 0), 1))
 	for rot := 0; rot < 3; rot++ {
